@@ -162,7 +162,7 @@ def check(col, prog, tier, profile, fixture=None):
                     col.ok("B2" + sfx, b.loc(second.bb), key, "carry = first child's returned carry")
                 else:
                     col.violation("B2" + sfx, key, b.loc(second.bb), "the second child is searched with carry %s instead of the carry returned by the first child: the first child's elements are missing from the aggregate shown to the predicate" % tstr(second.args[cpos]))
-                none_first = any(f[0] == "eq" and f[2] == 0 and ("proj", 1, first.res) in list(subterms(f[1])) for f in st.facts)
+                none_first = any(((f[0] == "eq" and f[2] == 0) or (f[0] == "ne" and f[2] == 1 and isinstance(f[1], tuple) and f[1][0] == "discr")) and ("proj", 1, first.res) in list(subterms(f[1])) for f in st.facts)
                 key = "%s|second-result-returned" % fk(b)
                 if ret == second.res and none_first:
                     col.ok("B2" + sfx, b.loc(second.bb), key, "first child had no hit; second child's result returned unchanged")
